@@ -13,6 +13,7 @@ import (
 
 	"github.com/saucelabs/forwarder/internal/vfrt"
 	"golang.org/x/net/http2"
+	"golang.org/x/net/http2/hpack"
 )
 
 func vfWindow(label string) int {
@@ -301,4 +302,48 @@ func vfH_C09_credit() {
 	vfrt.Observe("credited", i1)
 	vfrt.Assert(i1 == uint32(l), "credit/connection-credit-equals-flow-controlled-length")
 	vfrt.Assert(i2 == uint32(l), "credit/stream-credit-equals-flow-controlled-length")
+}
+
+//vf:harness property=C09 nopanic reach=hdr-plain,hdr-priority,hdr-push steps=6000000
+func vfH_C09_hdrframes() {
+	// the relay's own HEADERS / PUSH_PROMISE / CONTINUATION frames fit the peer's max frame size, counting the
+	// priority (5) and promised-id (4) octets that share the first frame with the fragment
+	off := false
+	var out bytes.Buffer
+	r := newRelay(ClientToServer, "c", "s", nil, http2.NewFramer(&out, nil), &off)
+	r.output = make(chan queuedFrame, 64)
+	m := uint32(16 + vfrt.Choice("max-frame-size", 12)) // small sizes so that the encoded block needs several frames
+	r.maxFrameSize = m
+	headers := []hpack.HeaderField{{Name: ":method", Value: "GET"}, {Name: ":path", Value: "/a/rather/long/path/to/make/the/block/larger"}, {Name: "x-custom-header", Value: "some-value-that-is-not-in-the-static-table"}}
+	kind := vfrt.Choice("kind", 3)
+	var prio http2.PriorityParam
+	switch kind {
+	case 0:
+		vfrt.Reach("hdr-plain")
+		vfrt.Assert(r.header(1, headers, vfrt.Bool("end-stream"), prio) == nil, "hdrframes/encoded")
+	case 1:
+		vfrt.Reach("hdr-priority")
+		prio = http2.PriorityParam{StreamDep: 3, Weight: vfrt.Byte("weight"), Exclusive: vfrt.Bool("exclusive")}
+		vfrt.Assert(r.header(1, headers, vfrt.Bool("end-stream"), prio) == nil, "hdrframes/encoded")
+	case 2:
+		vfrt.Reach("hdr-push")
+		vfrt.Assert(r.pushPromise(1, 2, headers) == nil, "hdrframes/encoded")
+	}
+	for _, f := range vfDrain(r) {
+		vfrt.Assert(f.send(r.dest) == nil, "hdrframes/sent")
+	}
+	// every frame on the wire respects the limit
+	b := out.Bytes()
+	frames := 0
+	for len(b) >= 9 {
+		l := int(b[0])<<16 | int(b[1])<<8 | int(b[2])
+		vfrt.Assert(uint32(l) <= m, "hdrframes/frame-payload-within-max-frame-size")
+		vfrt.Assert(len(b) >= 9+l, "hdrframes/wire-well-formed")
+		if len(b) < 9+l {
+			return
+		}
+		b = b[9+l:]
+		frames++
+	}
+	vfrt.Assert(frames >= 2 && len(b) == 0, "hdrframes/block-was-split")
 }
